@@ -21,6 +21,7 @@ var commands = map[string]func([]string){
 	"conc-free":   cmdConcFree,
 	"ownpost":     cmdOwnPost,
 	"system":      cmdSystem,
+	"system-twin": cmdSystemTwin,
 	"ownexamples": cmdOwnExamples,
 }
 
